@@ -1,6 +1,8 @@
 package main
 
 import (
+	"crypto/sha1"
+	"flag"
 	"encoding/json"
 	"fmt"
 	"os"
@@ -219,7 +221,7 @@ func buildClause(res lexh.BuildResult) string {
 
 func run(c *hx.Ctx) error {
 	res := c.Res
-	res.Rule = "lexer inputs: arbitrary byte strings over a lexer-biased alphabet; the template/program corpus of /repo (test/compare/testdata, string literals of the lexer/parser/template tests, hand-written seeds) in its own and in every other format; every truncation of sampled sources; grammar-aware mutants (delimiter/keyword/tag fragments, token delete/duplicate/swap, byte flips, splices, wraps); all six formats, noParseShow on and off, program mode. Non-trivial = the real lexer emits at least three tokens (i.e. anything but plain text); distinct by (mode, format, bytes). Build inputs: a sample of the same single files plus mutants of multi-file trees (extends/import/render); non-trivial = built or rejected with a *BuildError."
+	res.Rule = "lexer inputs: arbitrary byte strings over a lexer-biased alphabet; the template/program corpus of /repo (test/compare/testdata, string literals of the lexer/parser/template tests, hand-written seeds) in its own and in every other format; every truncation of sampled sources; grammar-aware mutants (delimiter/keyword/tag fragments, token delete/duplicate/swap, byte flips, splices, wraps); all six formats, noParseShow on and off, program mode. Non-trivial = the real lexer emits at least three tokens (i.e. anything but plain text); distinct by (mode, format, bytes). Build inputs: a sample of the same single files plus mutants of multi-file trees (extends/import/render) plus the stream forms × modifiers × roles (lexh/forms.go: every declaration/statement form of templates and programs, with every modifier — `; using`, trailing tokens, empty/missing/duplicated/swapped clauses, wrong delimiters, token prefixes, nestings — in every file role — main, extending, layout, imported, partial, macro body with format, script/style/attribute, the six formats, program main and imported package; histogram keys forms-role-*, forms-mod-*, forms-category-*, forms-status-*); non-trivial = built or rejected with a *BuildError."
 	corpus := lexh.LoadCorpus(c.N(6000, 40000), c.N(6000, 40000))
 	res.Histogram["corpus-templates"] = len(corpus.Templates)
 	res.Histogram["corpus-programs"] = len(corpus.Programs)
@@ -248,15 +250,34 @@ func run(c *hx.Ctx) error {
 	isDown := func(s string) bool { return strings.HasPrefix(s, "CRASH") || strings.HasPrefix(s, "HANG") }
 
 	// known findings: replay the exact minimal input on the real code
+	alsoOf := map[string]string{} // case line -> id of the finding that lists it under "also" (confirmed ones only)
 	knownFor := func(caseLine string) string {
 		for _, f := range c.Findings {
 			if f.Minimal == caseLine {
 				return f.ID
 			}
 		}
-		return ""
+		return alsoOf[caseLine]
 	}
 	knownSig := map[string]string{} // signature with which a recorded build finding fails on this tree
+	// "also": further exact inputs of a recorded finding (same defect reached from another starting point of the
+	// shrinker). Each is replayed here and counts only if it fails on this tree with the signature of the finding's
+	// minimal input — a finding covers a finite list of inputs, every one of which is seen to fail.
+	var alsoAll []struct {
+		ID   string   `json:"id"`
+		Prop string   `json:"property"`
+		Also []string `json:"also"`
+	}
+	if fl := flag.Lookup("findings"); fl != nil && fl.Value.String() != "" {
+		if data, err := os.ReadFile(fl.Value.String()); err == nil {
+			var all struct {
+				Findings json.RawMessage `json:"findings"`
+			}
+			if json.Unmarshal(data, &all) == nil {
+				json.Unmarshal(all.Findings, &alsoAll)
+			}
+		}
+	}
 	for _, f := range c.Findings {
 		switch {
 		case strings.HasPrefix(f.Minimal, "lex "):
@@ -280,6 +301,25 @@ func run(c *hx.Ctx) error {
 			}
 		default:
 			return fmt.Errorf("known finding %s: minimal must start with `lex ` or `build `", f.ID)
+		}
+	}
+
+	for _, a := range alsoAll {
+		if a.Prop != "C04" || knownSig[a.ID] == "" || !c.HasFinding(a.ID) {
+			continue
+		}
+		for _, line := range a.Also {
+			b, err := lexh.ParseBuildLine(strings.TrimPrefix(line, "build "))
+			if err != nil || !strings.HasPrefix(line, "build ") {
+				return fmt.Errorf("known finding %s: bad `also` entry %q", a.ID, line)
+			}
+			br := buildOne(b)
+			if cl := buildClause(br); cl != "" && cl+"|"+digitsRe.ReplaceAllString(br.Msg, "#")+"|"+br.Site == knownSig[a.ID] {
+				alsoOf[line] = a.ID
+				res.Hist("known-also-confirmed")
+			} else {
+				res.Hist("known-also-not-failing-alike")
+			}
 		}
 	}
 
@@ -479,10 +519,6 @@ func run(c *hx.Ctx) error {
 		res.Histogram[k] = v
 	}
 	res.Notes = append(res.Notes, lexh.FormsSummary())
-	blines := make([]string, len(builds))
-	for i, b := range builds {
-		blines[i] = b.Line()
-	}
 	t0 = time.Now()
 	// sources with huge array types (known finding huge-array-build-allocates) make the child run out of memory or
 	// time: they run apart, so that they do not use up the allowance of crashes of the other inputs
@@ -499,23 +535,27 @@ func run(c *hx.Ctx) error {
 		idx     []int
 		maxDown int
 	}{{plainIdx, 0}, {hugeIdx, 60}} {
-		lines := make([]string, len(part.idx))
-		for k, i := range part.idx {
-			lines[k] = blines[i]
+		// in chunks: the request lines of a thorough run would take gigabytes
+		for lo := 0; lo < len(part.idx); lo += 50000 {
+			idx := part.idx[lo:min(lo+50000, len(part.idx))]
+			lines := make([]string, len(idx))
+			for k, i := range idx {
+				lines[k] = builds[i].Line()
+			}
+			pr := &lexh.Runner{Mode: "build", Timeout: buildRunner.Timeout, MaxDown: part.maxDown}
+			ans, err := pr.Run(lines)
+			if err != nil {
+				return err
+			}
+			for k, i := range idx {
+				bans[i] = ans[k]
+			}
+			buildRunner.Crashes += pr.Crashes
+			buildRunner.Hangs += pr.Hangs
 		}
-		pr := &lexh.Runner{Mode: "build", Timeout: buildRunner.Timeout, MaxDown: part.maxDown}
-		ans, err := pr.Run(lines)
-		if err != nil {
-			return err
-		}
-		for k, i := range part.idx {
-			bans[i] = ans[k]
-		}
-		buildRunner.Crashes += pr.Crashes
-		buildRunner.Hangs += pr.Hangs
 	}
 	res.Histogram["build-sources-with-huge-array-types"] = len(hugeIdx)
-	res.Notes = append(res.Notes, fmt.Sprintf("build child: %d inputs in %v", len(blines), time.Since(t0).Round(time.Millisecond)))
+	res.Notes = append(res.Notes, fmt.Sprintf("build child: %d inputs in %v", len(builds), time.Since(t0).Round(time.Millisecond)))
 	t0 = time.Now()
 	// one signature = (clause, message without numbers, innermost scriggo function). Per signature two cases are shrunk:
 	// the first one of the older streams (arbitrary bytes, corpus, truncations, mutants, structural, trees) and the
@@ -542,11 +582,14 @@ func run(c *hx.Ctx) error {
 			}
 			return clause + "|" + br.Detail
 		}
+		if clause == "no-goroutine-left" { // the message is that of the build error, which is beside the point
+			return clause
+		}
 		return clause + "|" + digitsRe.ReplaceAllString(br.Msg, "#") + "|" + br.Site
 	}
 	for i, b := range builds {
 		br := lexh.ParseBuildResult(bans[i])
-		res.Count("build:"+b.Key(), br.Status == "ok" || br.Status == "builderror")
+		res.Count(fmt.Sprintf("build:%x", sha1.Sum([]byte(b.Key()))), br.Status == "ok" || br.Status == "builderror")
 		res.Hist("build-" + origins[i])
 		res.Hist("build-status-" + strings.Fields(br.Status + " x")[0])
 		if i >= formsAt {
@@ -693,6 +736,9 @@ func run(c *hx.Ctx) error {
 				res.Hist("build-narrow-match-" + finding)
 			}
 		}
+		if os.Getenv("VERIF_C04_SHRINK_ALL") != "" {
+			fmt.Fprintf(os.Stderr, "MIN\t%s\t%s\t%s\tbuild %s\n", finding, name, humanBuild(min), min.Line())
+		}
 		h := humanBuild(min)
 		if i >= formsAt {
 			fc := formCases[i-formsAt]
@@ -702,6 +748,14 @@ func run(c *hx.Ctx) error {
 			Impl:    br.Status + " " + br.Msg + " @" + br.Site + " " + br.Detail + fmt.Sprintf(" leak=%d", br.Leak),
 			Model:   "result or *BuildError (or fs.ErrNotExist for the named file) within the timeout, no goroutine left",
 			Finding: finding})
+	}
+	if os.Getenv("VERIF_C04_SHRINK_ALL") != "" { // development aid: the minimum of every failing case of the forms stream
+		for i := formsAt; i < len(builds); i++ {
+			if _, ok := fails[i]; ok {
+				nShrunk = 0
+				shrinkAndReport(i)
+			}
+		}
 	}
 	for _, sig := range sigOrder {
 		if i, ok := firstLegacy[sig]; ok {
